@@ -2,6 +2,7 @@
 
 from sa import tables as T
 from sa import controls as K
+from sa import effects as E
 
 
 def _t(rule_fn, **kw):
@@ -28,6 +29,9 @@ FLOORS = {
     "T0": 300, "T1": 30, "T3a": 100, "T3b": 40, "T3c": 30, "T3d": 8, "T3e": 5, "T3f": 6,
     "T3g": 40, "T3a-req": 40, "T4a": 50, "T4b": 5, "T4c": 50, "T4d": 50, "T4e": 3, "T4f": 8,
     "T4g": 10, "T5": 8,
+    # effect / ownership rules (write sites confirmed by reading conducting.py / machines.py)
+    "F1": 10, "F2": 10, "F3": 10, "F4": 8, "F5": 25, "F6": 3, "F7": 2, "F8": 8, "O1": 30,
+    "O2": 6, "O3": 20, "S1": 20,
 }
 
 PROPERTIES = {}
@@ -136,6 +140,84 @@ prop(
 )
 
 
+ENGINE_MODS = ["conducting", "machines", "utils.dictionary", "utils.jsonify", "utils.context"]
+A_ABS = ("the abstract interpretation (sa.absint) over-approximates aliasing: one abstract object "
+         "per allocation site and call site, summary of merge_dicts verified against its body on "
+         "every run; foreign code (ujson, yaql, jinja2, networkx) is assumed not to retain or "
+         "mutate its arguments except as summarised (deepcopy returns a deep copy)")
+
+prop(
+    "C04",
+    anchor_modules=TABLE_MODS,
+    rules=[_t(T.rule_T0), _t(T.rule_T1), _t(T.rule_T3f), E.rule_F4, E.rule_F6],
+    controls=[K.ctl_unvalidated_status_write, K.ctl_rerun_write_before_reject],
+    explanation=(
+        "Decides the structural clauses of 'terminal statuses are final': the terminal rows of "
+        "the workflow table have no outgoing cell except succeeded->failed on an explicit failed "
+        "request, no table path leads from a terminal status to a non-terminal one, and no "
+        "offering status is terminal (T3f); a late completion report only generates accepted "
+        "event names, which terminal rows ignore (T0/T1); the workflow status has no other "
+        "writer than the table, the validated setter, the unreachable-join override and rerun "
+        "(F4, every write site classified by value origin and guards); a status request or rerun "
+        "request that is rejected has not written anything before the rejecting raise (F6, all "
+        "paths of the two request functions incl. callees). NOT decided: every suffix of events "
+        "after termination at the level of histories."),
+    assumptions=[A1, A_SPEC, A_ABS, A_AST],
+)
+
+prop(
+    "C05",
+    anchor_modules=ENGINE_MODS + ["graphing"],
+    rules=[E.rule_S1, E.rule_O1, E.rule_O3, E.rule_F5, E.rule_F8],
+    controls=[K.ctl_share_record_lists, K.ctl_serialize_no_copy, K.ctl_drop_restore_of_attr],
+    explanation=(
+        "Decides the structural core of 'persist/restore is unobservable': every attribute of "
+        "WorkflowState / WorkflowConductor that the engine writes at run time is read by "
+        "serialize() and restored by deserialize(), with matching keys (S1); no object has two "
+        "persistent homes, i.e. nothing stored into the state is a reference to something "
+        "already stored elsewhere in it and mutated in place - JSON round-tripping breaks "
+        "exactly that sharing (O1); serialize()/deserialize() and the getters hand out and take "
+        "in deep copies only (O3); serialize() and the other queries write nothing (F5); the "
+        "composed graph is written only by the composer (F8). NOT decided: equality of all "
+        "continuations of a live and a restored conductor; fidelity of ujson / networkx round "
+        "trips for particular values."),
+    assumptions=[A_ABS, A_AST],
+)
+
+prop(
+    "C06",
+    anchor_modules=ENGINE_MODS,
+    rules=[E.rule_O2, E.rule_F2],
+    controls=[K.ctl_drop_ctx_copy],
+    explanation=(
+        "Decides one clause: isolation of the context store. A stored context delta is never "
+        "written after it was appended, and no task context is built by mutating a stored delta "
+        "(every merge_dicts call site reached from the API has a first argument that owns "
+        "everything it references; merge_dicts itself only mutates its first argument). If this "
+        "fails, a value published on one branch becomes visible to tasks that are not its "
+        "descendants. NOT decided: causal ancestry, supersession and arrival-order semantics of "
+        "the merged index lists (behavioural, over histories)."),
+    assumptions=[A_ABS, A_AST],
+)
+
+prop(
+    "C18",
+    anchor_modules=ENGINE_MODS,
+    rules=[E.rule_F1, E.rule_F2, E.rule_F3, _t(T.rule_T4e), E.rule_O1, E.rule_O2],
+    controls=[K.ctl_sequence_insert, K.ctl_share_record_lists, K.ctl_drop_ctx_copy],
+    explanation=(
+        "Decides the property at the level of code shape: the history containers (sequence, "
+        "contexts, routes) only grow - every write site that reaches them is an append (F1); "
+        "the frozen fields of a stored record (id, route, prev, ctxs.in) and stored context "
+        "deltas have no writer and no alias that is mutated (F2, O1, O2); transition decisions "
+        "and outgoing contexts are written only under 'status changed to a completed status', "
+        "task statuses only by the task machine from its table, the term flag only set to True "
+        "and only reset by rerun (F3); finished task rows have no outgoing cell except the "
+        "retry command (T4e). NOT decided: nothing structural remains; the foreign ujson copy is "
+        "trusted."),
+    assumptions=[A_ABS, A_AST],
+)
+
 # ---------------------------------------------------------------------- manifest metadata
 NOT_APPLICABLE = {
     "C08": "quantifies over all linearisations of completion reports and compares terminal "
@@ -151,6 +233,13 @@ NOT_APPLICABLE = {
 PENDING = {}
 
 TECHNIQUE = {
+    "C04": "typestate analysis of terminal rows + effect analysis (who writes the status; no "
+           "write precedes a rejecting raise) by abstract interpretation over the ast",
+    "C05": "ownership / alias analysis (access-path abstract interpretation), "
+           "serialize-deserialize attribute agreement",
+    "C06": "ownership analysis: no mutation through a borrowed reference into the context store",
+    "C18": "effect analysis of every persistent write site (append-only, frozen fields, "
+           "write-once guards)",
     "C02": "static typestate analysis of the folded transition tables + exhaustive path "
            "enumeration of the event contextualisers (ast)",
     "C03": "static typestate analysis of the folded transition tables (ast)",
